@@ -446,6 +446,39 @@ def run_path(env, chk, case, tmpdir):
             chk.impl_failure(cj, f"JSON round trip: shapes {back._parameters_shape} != {ip._parameters_shape}")
         check_untouched()
         return prefix + f"j={j} back={canon_container(env, back)}"
+    if path == "jsonrev":
+        import json
+        torch = env["torch"]
+        p = os.path.join(tmpdir, f"ip_{chk.evaluations}_rev.json")
+        try:
+            ip.save(p)
+        except Exception as e:  # noqa
+            return prefix + f"t={err_class(env, e)}"
+        with open(p) as f:
+            jd = json.load(f)
+        # same content, the dictionary of individuals listed in another order than the identifier list
+        jd["individual_parameters"] = dict(reversed(list(jd["individual_parameters"].items())))
+        with open(p, "w") as f:
+            json.dump(jd, f)
+        try:
+            back = env["IP"].load(p)
+            ids, d = back.to_pytorch()
+        except Exception as e:  # noqa
+            chk.impl_failure(cj, f"loading a JSON file with re-ordered individuals and converting to tensors raised {type(e).__name__}: {e}")
+            return prefix + f"t={err_class(env, e)}"
+        ids = list(ids)
+        if ids != orig_ids:
+            chk.impl_failure(cj, f"identifiers after JSON load + to_pytorch {ids} != {orig_ids}")
+        for n, tns in d.items():
+            for r, i in enumerate(orig_ids):
+                if r < tns.shape[0] and i in orig and n in orig[i]:
+                    for a, b in zip(orig[i][n][1], tns[r].tolist()):
+                        if a is None or abs(a - Fraction(b)) > abs(a) * Fraction(1, 2 ** 24) + Fraction(1, 2 ** 149):
+                            chk.impl_failure(cj, f"after JSON load (individuals listed in another order) to_pytorch['{n}'] row {r} does not "
+                                             f"belong to identifier {i!r}: {b!r} vs stored {a}")
+                            break
+        check_untouched()
+        return prefix + f"t={canon_tensors(env, ids, d)}"
     raise core.Infra(f"unknown path {path}")
 
 
@@ -738,7 +771,7 @@ def run(chk: core.Check):
                 "NA-like strings, 1-4 parameters (names with and without '_', containing 'source'), shapes scalar / (1,) / (n,), "
                 "python and numpy ints / floats (dyadic, plus decimals outside CSV), key order permuted for some individuals, "
                 "seeded invalid additions (duplicate / non-string id, non-dict, unsupported scalar / element, empty list, wrong "
-                "shape, missing / extra key); each container goes through one of build / table / csv-file / torch / json-file; "
+                "shape, missing / extra key); each container goes through one of build / table / csv-file / torch / json-file / json-file with re-ordered individuals then tensors; "
                 "plus hand-made tables and tensor dicts for from_dataframe / from_pytorch. Every case is compared exactly with "
                 "the Lean model. Non-trivial: at least one addition (or a direct from_* case); distinct by the full request line.")
     tmpdir = tempfile.mkdtemp(prefix="verif_C16_files_")
@@ -749,8 +782,8 @@ def run(chk: core.Check):
         cases += fixed_cases()
         rng = chk.rng
         n = 1500 if chk.tier == "thorough" else 150
-        for path in ("table", "csv", "torch", "json", "build"):
-            for _ in range(n if path != "build" else n // 2):
+        for path in ("table", "csv", "torch", "json", "build", "jsonrev"):
+            for _ in range(n if path not in ("build", "jsonrev") else n // 2):
                 cases.append(gen_container_case(rng, path))
         for _ in range(n):
             cases.append(gen_fromtable(rng))
